@@ -1,5 +1,6 @@
 import Sympler.Cells
 import Sympler.GridChecks
+import Sympler.Gen.CreateDistGen
 
 /-!
 Executable model of the pair generation of the linked-cell pair creator:
@@ -84,7 +85,40 @@ def forDifferent (cp : CpCfg) (frozenList : Bool) (dir : Int) (fc sc : CellGeom)
     (aoF aoS : Bool) (cellDist : V3 Rat) : List PairRec :=
   ps1.flatMap fun i => ps2.flatMap fun j => addPair cp frozenList dir fc sc i j aoF aoS cellDist
 
-/-- `CellLink::createDistances()` (non-OpenMP) for link `l` -/
+/-- acts-on argument of a call site: literal or a flag of the link -/
+def evalAo (aoF aoS : Bool) : Nat → Bool
+  | 0 => false
+  | 1 => true
+  | 2 => aoF
+  | _ => aoS
+
+/-- particle list argument `(cell, frozen?, colour variable)` of a call site -/
+def siteRefs (s : St) (f g c1 c2 : Nat) (l : Nat × Bool × Nat) : List PRef :=
+  let cell := if l.1 = 0 then f else g
+  let col := if l.2.2 = 1 then c1 else c2
+  if l.2.1 then frozenRefs s cell col else freeRefs s cell col
+
+/-- one call site of the REGENERATED table `Sympler.Gen.CreateDist.sites` -/
+def evalSite (s : St) (cp : CpCfg) (f g c1 c2 : Nat) (fc sc : CellGeom) (aoF aoS : Bool) (dist : V3 Rat)
+    (st : Sympler.Gen.CreateDist.Site) : List PairRec :=
+  let guardOk := match st.guard with
+    | 0 => true
+    | 1 => aoF
+    | _ => aoS
+  if !guardOk then []
+  else
+    let ca := if st.cellA = 0 then fc else sc
+    let cb := if st.cellB = 0 then fc else sc
+    if st.same then forSame cp st.frozenList st.dir ca dist (siteRefs s f g c1 c2 st.la)
+    else forDifferent cp st.frozenList st.dir ca cb (siteRefs s f g c1 c2 st.la) (siteRefs s f g c1 c2 st.lb)
+           (evalAo aoF aoS st.aoF) (evalAo aoF aoS st.aoS) dist
+
+/-- all call sites of one branch, in source order -/
+def branchPairs (s : St) (cp : CpCfg) (f g c1 c2 : Nat) (fc sc : CellGeom) (aoF aoS : Bool) (dist : V3 Rat) (b : Nat) : List PairRec :=
+  (Sympler.Gen.CreateDist.sites.filter (fun st => st.branch == b)).flatMap (evalSite s cp f g c1 c2 fc sc aoF aoS dist)
+
+/-- `CellLink::createDistances()` (non-OpenMP) for link `l`: the loop skeleton (checked by translate/t_createdist.py) around the
+call sites of the regenerated table -/
 def linkPairs (S : Sys) (cps : List CpCfg) (s : St) (l : Nat) : List PairRec :=
   let lk := S.G.links.getD l default
   let f := lk.first
@@ -92,47 +126,15 @@ def linkPairs (S : Sys) (cps : List CpCfg) (s : St) (l : Nat) : List PairRec :=
   let fc := S.G.cells.getD f default
   let sc := S.G.cells.getD g default
   let cols := List.range S.nCol
+  let at_ := fun (c1 c2 b : Nat) =>
+    match cpLookup cps c1 c2 with
+    | some cp => if cp.need then branchPairs s cp f g c1 c2 fc sc lk.aoF lk.aoS lk.dist b else []
+    | none => []
   if f = g then
     cols.flatMap fun c1 =>
-      (match cpLookup cps c1 c1 with
-       | some cp =>
-         if cp.need then
-           forSame cp false 0 fc lk.dist (freeRefs s f c1)
-           ++ forDifferent cp true 0 fc fc (freeRefs s f c1) (frozenRefs s f c1) true false lk.dist
-         else []
-       | none => [])
-      ++ (cols.filter (fun c2 => c1 < c2)).flatMap fun c2 =>
-        match cpLookup cps c1 c2 with
-        | some cp =>
-          if cp.need then
-            forDifferent cp false 0 fc fc (freeRefs s f c1) (freeRefs s f c2) true true lk.dist
-            ++ forDifferent cp true 0 fc fc (freeRefs s f c1) (frozenRefs s f c2) true false lk.dist
-            ++ forDifferent cp true 0 fc fc (frozenRefs s f c1) (freeRefs s f c2) false true lk.dist
-          else []
-        | none => []
+      at_ c1 c1 0 ++ (cols.filter (fun c2 => c1 < c2)).flatMap fun c2 => at_ c1 c2 1
   else
-    cols.flatMap fun c1 => cols.flatMap fun c2 =>
-      match cpLookup cps c1 c2 with
-      | some cp =>
-        if cp.need then
-          if c1 < c2 then
-            forDifferent cp false 1 fc sc (freeRefs s f c1) (freeRefs s g c2) lk.aoF lk.aoS lk.dist
-            ++ (if lk.aoF then
-                  forDifferent cp true 1 fc sc (freeRefs s f c1) (frozenRefs s g c2) true false lk.dist
-                else [])
-            ++ (if lk.aoS then
-                  forDifferent cp true 1 fc sc (frozenRefs s f c1) (freeRefs s g c2) false true lk.dist
-                else [])
-          else
-            forDifferent cp false (-1) sc fc (freeRefs s g c2) (freeRefs s f c1) lk.aoS lk.aoF lk.dist
-            ++ (if lk.aoF then
-                  forDifferent cp true (-1) sc fc (frozenRefs s g c2) (freeRefs s f c1) false true lk.dist
-                else [])
-            ++ (if lk.aoS then
-                  forDifferent cp true (-1) sc fc (freeRefs s g c2) (frozenRefs s f c1) true false lk.dist
-                else [])
-        else []
-      | none => []
+    cols.flatMap fun c1 => cols.flatMap fun c2 => if c1 < c2 then at_ c1 c2 2 else at_ c1 c2 3
 
 /-- `LinkedListCreator::createDistances`: all `addPair` hits over the active-link list, in call order -/
 def pairs (S : Sys) (cps : List CpCfg) (s : St) : List PairRec :=
